@@ -1,11 +1,13 @@
 package dm
 
 import (
+	"bytes"
 	"encoding/base64"
 	"fmt"
 	"reflect"
 	"sort"
 	"strconv"
+	"strings"
 
 	"github.com/freeconf/yang/node"
 	"github.com/freeconf/yang/nodeutil"
@@ -49,16 +51,32 @@ func NewStore(kind string, root *Node, t Tree) (Store, error) {
 			return nil, err
 		}
 		return &readerStore{node: n, data: CloneTree(t)}, nil
+	case "xml-reader":
+		// the same for the XML reader
+		doc := &XNode{Name: root.Name, Children: TreeToXML(root, t)}
+		var b bytes.Buffer
+		doc.Render(&b, "urn:"+root.Name)
+		n, err := nodeutil.ReadXMLDoc(strings.NewReader(b.String()))
+		if err != nil {
+			return nil, err
+		}
+		return &readerStore{kind: "xml-reader", node: n, data: CloneTree(t)}, nil
 	}
 	return nil, fmt.Errorf("store kind %q", kind)
 }
 
 type readerStore struct {
+	kind string
 	node node.Node
 	data Tree
 }
 
-func (s *readerStore) Kind() string            { return "json-reader" }
+func (s *readerStore) Kind() string {
+	if s.kind != "" {
+		return s.kind
+	}
+	return "json-reader"
+}
 func (s *readerStore) Node() node.Node         { return s.node }
 func (s *readerStore) Snapshot() (Tree, error) { return CloneTree(s.data), nil }
 func (s *readerStore) KeepsOrder() bool        { return true }
@@ -69,11 +87,11 @@ type rsStore struct {
 	data Tree
 }
 
-func (s *rsStore) Kind() string             { return "rs" }
-func (s *rsStore) Node() node.Node          { return NewRS(s.root, s.data) }
-func (s *rsStore) Snapshot() (Tree, error)  { return CloneTree(s.data), nil }
-func (s *rsStore) KeepsOrder() bool         { return true }
-func (s *rsStore) ZeroIsUnset() bool        { return false }
+func (s *rsStore) Kind() string            { return "rs" }
+func (s *rsStore) Node() node.Node         { return NewRS(s.root, s.data) }
+func (s *rsStore) Snapshot() (Tree, error) { return CloneTree(s.data), nil }
+func (s *rsStore) KeepsOrder() bool        { return true }
+func (s *rsStore) ZeroIsUnset() bool       { return false }
 
 type mapStore struct {
 	kind   string
